@@ -636,6 +636,10 @@ namespace Pistache
                 bool feed(const char* data, size_t len);
                 virtual void reset();
                 State parse();
+                // how much feed() still accepts
+                size_t room() const;
+                // what has been fed and lies behind the message parsed last
+                std::string unparsed() const;
 
                 Step* step();
 
